@@ -691,7 +691,6 @@ func runPredecodeStream(c *Ctx, n int) {
 	}
 }
 
-
 // polyglotStoredBlocks builds (wire, inflated): inflated is an unsigned Response with one IdP-signed assertion and neither
 // Destination nor InResponseTo; wire is a DEFLATE stream of stored blocks that, read as plain XML, shows a root start tag
 // carrying Destination and InResponseTo before it becomes ill-formed.
